@@ -143,7 +143,7 @@ def step(draw):
     elif kind == "fit":
         s["which"] = draw(st.sampled_from(["fit_jonswap", "fit_gaussian"]))
     elif kind == "file_roundtrip":
-        s["which"] = draw(st.sampled_from(["swan", "swan-1dir", "json", "octopus", "netcdf"]))
+        s["which"] = draw(st.sampled_from(["swan", "swan-1dir", "json", "octopus", "netcdf", "ww3", "ww3"]))
     return s
 
 
@@ -359,8 +359,9 @@ def check_history(case, ctx):
             wd = os.path.join(env.workdir(), "c18")
             os.makedirs(wd, exist_ok=True)
             try:
+                # the writer is called on the live object itself (or on views of its buffers): whatever it does to its
+                # receiver shows at the next observation
                 dsl = L.obj if L.kind == "Dataset" else L.obj.to_dataset(name="efth")
-                dsl = dsl.copy(deep=True)
                 if "site" not in dsl.dims:
                     dsl = dsl.expand_dims(site=[1])
                     dsl["lon"] = (("site",), [150.0])
@@ -368,7 +369,7 @@ def check_history(case, ctx):
                 w_ = s["which"]
                 if w_ == "swan-1dir":
                     dsl = dsl.isel(dir=[0])
-                pth = os.path.join(wd, "h." + {"swan": "spec", "swan-1dir": "spec", "json": "json", "octopus": "oct", "netcdf": "nc"}[w_])
+                pth = os.path.join(wd, "h." + {"swan": "spec", "swan-1dir": "spec", "json": "json", "octopus": "oct", "netcdf": "nc", "ww3": "nc"}[w_])
                 if w_.startswith("swan"):
                     dsl.spec.to_swan(pth)
                     _ws.read_swan(pth)
@@ -378,6 +379,9 @@ def check_history(case, ctx):
                 elif w_ == "octopus":
                     dsl.isel(site=0).spec.to_octopus(pth)
                     _ws.read_octopus(pth)
+                elif w_ == "ww3":
+                    dsl.spec.to_ww3(pth, ncformat="NETCDF3_64BIT")
+                    _ws.read_ww3(pth).load().close()
                 else:
                     dsl.spec.to_netcdf(pth, ncformat="NETCDF3_64BIT", compress=False)
                     _ws.read_netcdf(pth).load().close()
